@@ -71,8 +71,13 @@ def run_case(case):
                          "precision": prec, "analytic": analytic, "levels": levels, "setup": desc})
     # the background never changes the flux and only offsets the concentration
     bg = float(rng.choice([-1, 1]) * 10 ** rng.uniform(-1, 3))
+    bg_arg = bg
+    if case["idx"] % 3 == 0:  # a background given as a whole number (Python int / numpy integer): 400 ppm
+        bg = float(int(bg) or 7)
+        bg_arg = [int, np.int64, np.int32][(case["idx"] // 3) % 3](bg)
+        counters["integer_typed_background"] = 1
     p0, f0 = run(q1, 0.0)
-    pb, fb = run(q1, bg)
+    pb, fb = run(q1, bg_arg)
     if np.array_equal(f0, fb):
         counters["flux_bitwise_independent_of_bg"] += 1
     e = float(np.max(np.abs(fb - f0))) / (float(np.max(np.abs(f0))) or 1.0)
